@@ -453,10 +453,74 @@ def _part_c(ctx):
     return n_cases
 
 
+# ------------------------------------------------------------------ part D: typed values edited in place ($LS_COLORS)
+
+
+def _part_d(ctx):
+    """$LS_COLORS is a typed mapping that keeps its own export string.  Every sequence (depth <= 4,
+    thorough 5) of in-place edits - including edits that change only the hidden 'target' flag of a key -
+    and launches; the string a child receives must equal what a FRESHLY built LsColors of the same content
+    exports (differential oracle)."""
+    import itertools
+
+    from xonsh.environ import Env, LsColors
+    from xonsh.procs.specs import SubprocSpec
+
+    d = common.scratch_dir("c10d")
+    load_session(data_dir=d)
+    vals = {"t": "target", "r": ("RESET",), "b": ("BLUE",)}
+    events = [("set", "ln", v) for v in vals] + [("set", "di", "b"), ("del", "di"), ("launch",), ("reassign",)]
+    depth = ctx.pick(4, 5)
+    n = 0
+    for L in range(1, depth + 1):
+        for hist in itertools.product(events, repeat=L):
+            if hist[-1][0] != "launch":
+                continue
+            from xonsh.built_ins import XSH
+
+            model = {"ln": ("RESET",), "di": ("BLUE",)}
+            env = Env({"UPDATE_OS_ENVIRON": False, "PATH": [], "LS_COLORS": LsColors(dict(model))})
+            XSH.env = env
+            held = env["LS_COLORS"]
+            for i, ev in enumerate(hist):
+                if ev[0] == "set":
+                    held[ev[1]] = vals[ev[2]]
+                    model[ev[1]] = vals[ev[2]]
+                elif ev[0] == "del":
+                    if ev[1] in model:
+                        del held[ev[1]]
+                        del model[ev[1]]
+                elif ev[0] == "reassign":
+                    env["LS_COLORS"] = LsColors(dict(model))
+                    held = env["LS_COLORS"]
+                else:
+                    n += 1
+                    spec = SubprocSpec.__new__(SubprocSpec)
+                    spec.env = None
+                    kw = {}
+                    spec.prep_env_subproc(kw)
+                    got = kw["env"].get("LS_COLORS", "<absent>")
+                    want = LsColors(dict(model)).detype()
+                    if got != want:
+                        only_flag = [e for e in hist[:i] if e[0] == "set" and e[1] == "ln"]
+                        ctx.violation(
+                            key=f"launch-reflects-current-values:LS_COLORS:edited-in-place:{'stale-after-target-flag-change' if only_flag else 'stale-or-wrong'}",
+                            clause="the mapping handed to a child reflects the values at launch time",
+                            case={"part": "D", "history": [list(e) for e in hist[: i + 1]]},
+                            observed=got,
+                            expected=want,
+                        )
+                        break
+    return n
+
+
+
 def run(ctx):
     evals, nontrivial, skipped, nvars = _part_a(ctx)
     ctx.log(f"part A: {nvars} registered variables/types, {evals} (variable, value) round trips, {skipped} skipped (no validator/converter/detyper)")
     n_c = _part_c(ctx)
+    n_d = _part_d(ctx)
+    ctx.log(f"part D ($LS_COLORS edited in place): {n_d} launches")
     ctx.log(f"part C: {n_c} pipelines with per-command prefixes through real children")
     depth = ctx.pick(5, 7)
     r = seqx.bfs(_factory, depth, ctx, budget_s=ctx.pick(45, 800), chunk=8)
